@@ -570,7 +570,10 @@ fn case(mode: &str, seed: u64, idx: u64, stats: &mut Counts) -> Result<String, D
             .open()
             .map_err(|x| e("open", x))?;
         let tks: Vec<OptimisticTxKeyspace> = (0..nks)
-            .map(|i| db.keyspace(&format!("s{i}"), || KeyspaceCreateOptions::default().max_memtable_size(4_096)))
+            // stress mode: no memtable rotation while transactions are in flight - a flush registration during a commit
+            // is the window of known finding F5 (C06), which would surface here as a non-serializable history; the
+            // deterministic mode places rotate / flush / compaction / tracker gc between transaction steps instead
+            .map(|i| db.keyspace(&format!("s{i}"), || KeyspaceCreateOptions::default().max_memtable_size(if mode == "det" { 4_096 } else { 64 << 20 })))
             .collect::<fjall::Result<_>>()
             .map_err(|x| e("keyspace", x))?;
         let kss: Vec<Keyspace> = tks.iter().map(|t| t.inner().clone()).collect();
